@@ -537,6 +537,19 @@ fn c07(cases: &mut u64) -> Option<String> {
 /// builder must return exactly what capture_diff_slices_deadline returns for the same token slices, below and above
 /// the size (100 tokens per side) at which the builder switches to integer-mapped items.
 fn c07_builder_plumbing(cases: &mut u64) -> Option<String> {
+    // a timeout too large to be added to the clock never expires: same result as no deadline, no panic
+    for dur in [Duration::MAX, Duration::from_secs(u64::MAX), Duration::from_secs(u64::MAX / 4)] {
+        for alg in [Algorithm::Myers, Algorithm::Patience, Algorithm::Lcs] {
+            *cases += 1;
+            let (o, nw) = (["a", "b", "c", "d"], ["a", "x", "c", "y", "d"]);
+            let with = guard(|| { let mut cfg = TextDiff::configure(); cfg.algorithm(alg).timeout(dur); cfg.diff_slices(&o, &nw).ops().to_vec() });
+            let without = guard(|| { let mut cfg = TextDiff::configure(); cfg.algorithm(alg); cfg.diff_slices(&o, &nw).ops().to_vec() });
+            match (with, without) {
+                (Ok(a), Ok(b)) => if a != b { return Some(format!("C07 TextDiffConfig::timeout({:?}) alg={:?}: ops {:?} differ from the ops without a deadline {:?} (clause: a deadline that never expires gives exactly the result of no deadline)", dur, alg, a, b)); },
+                (Err(e), _) | (_, Err(e)) => return Some(format!("C07 TextDiffConfig::timeout({:?}) alg={:?}: {}", dur, alg, e)),
+            }
+        }
+    }
     for &n in &[6usize, 40, 150, 260] {
         for variant in 0..3usize {
             let old: Vec<String> = (0..n).map(|i| format!("t{}", (i * 7 + variant) % 23)).collect();
@@ -764,6 +777,36 @@ fn c07_clock(cases: &mut u64, exact: bool) -> Option<String> {
                 if did_expire && after > work_bound(o.len(), n.len()) {
                     return Some(format!("{}: {} element comparisons after expiry > 8*(N+M)+16 = {} (N={} M={})", ctx(&ks), after, work_bound(o.len(), n.len()), o.len(), n.len()));
                 }
+                // the same schedule with the hook wrapped in the Replace adapter (and in Compact+Replace): what the inner
+                // hook receives must still be a valid script, finished once
+                for stack in 0..2 {
+                    vc::set_fuel(Some(k));
+                    let rr = guard(|| {
+                        if stack == 0 {
+                            let mut d = Replace::new(Rec::default());
+                            let r = diff_deadline(alg, &mut d, &to[..], 0..to.len(), &tn[..], 0..tn.len(), Some(far));
+                            (r, d.into_inner().calls)
+                        } else {
+                            let mut d = Compact::new(Replace::new(Rec::default()), &to[..], &tn[..]);
+                            let r = diff_deadline(alg, &mut d, &to[..], 0..to.len(), &tn[..], 0..tn.len(), Some(far));
+                            (r, d.into_inner().into_inner().calls)
+                        }
+                    });
+                    vc::set_fuel(None);
+                    let sname = ["Replace(hook)", "Compact(Replace(hook))"][stack];
+                    match rr {
+                        Err(p) => return Some(format!("{} through {}: {}", ctx(&ks), sname, p)),
+                        Ok((res, calls)) => {
+                            if res.is_err() {
+                                return Some(format!("{} through {}: Err although the hook never fails", ctx(&ks), sname));
+                            }
+                            let rl = Rules { carried: Carried::Ignore, finish: Fin::OnceAndLast, nonempty: true };
+                            if let Err(e) = check_script(&calls, o, 0..o.len(), n, 0..n.len(), rl) {
+                                return Some(format!("{} through {}: the inner hook saw {:?}: {}", ctx(&ks), sname, calls, e));
+                            }
+                        }
+                    }
+                }
                 match cap {
                     Err(p) => return Some(format!("{}: capture_diff_deadline: {}", ctx(&ks), p)),
                     Ok(ops) => if let Err(e) = check_script(&ops_calls(&ops), o, 0..o.len(), n, 0..n.len(), lax) {
@@ -975,6 +1018,53 @@ fn c05_bytes(cases: &mut u64) -> Option<String> {
                     }
                     if !valid && shown != String::from_utf8_lossy(&out) {
                         return Some(format!("{}: Display {:?} is not the lossy decoding of the writer's output {:?}", ctx, shown, out));
+                    }
+                }
+            }
+        }
+    }
+    None
+}
+
+// ---------------------------------------------------------------------------------------------
+// C11 on the ops a text diff stores (run with the K1 repair hook on): both indices of every op are exact
+// ---------------------------------------------------------------------------------------------
+fn c11_text(cases: &mut u64) -> Option<String> {
+    let exact = Rules { carried: Carried::Exact, finish: Fin::Ignore, nonempty: true };
+    let small = seqs(3, bd(4));
+    let mut inputs: Vec<(String, Vec<u32>, Vec<u32>)> = Vec::new();
+    for o in &small {
+        for n in &small {
+            inputs.push((String::new(), o.clone(), n.clone()));
+        }
+    }
+    for (name, o, n) in large_token_shapes() {
+        inputs.push((name.to_string(), o, n));
+    }
+    for (name, o, n) in &inputs {
+        let (ot, nt) = (tokens_to_lines(o), tokens_to_lines(n));
+        for &alg in &ALGS {
+            *cases += 1;
+            let r = guard(|| {
+                let d = TextDiff::configure().algorithm(alg).diff_lines(&ot[..], &nt[..]);
+                (d.ops().to_vec(), d.grouped_ops(1))
+            });
+            let ctx = format!("C11 alg={:?} TextDiff::diff_lines {} old tokens {:?}.. ({}), new tokens {:?}.. ({})", alg, name, &o[..o.len().min(8)], o.len(), &n[..n.len().min(8)], n.len());
+            match r {
+                Err(p) => return Some(format!("{}: {}", ctx, p)),
+                Ok((ops, groups)) => {
+                    if let Err(e) = check_script(&ops_calls(&ops), o, 0..o.len(), n, 0..n.len(), exact) {
+                        return Some(format!("{}: ops {:?}: {} (clause: both indices of every op equal the items consumed by all preceding ops)", ctx, ops, e));
+                    }
+                    // consumers that compute hunk extents from the first and last op of a group
+                    for g in &groups {
+                        let (f, l) = (g.first().unwrap(), g.last().unwrap());
+                        let (fo, fn_) = (f.old_range().start, f.new_range().start);
+                        let (lo, ln) = (l.old_range().end, l.new_range().end);
+                        let (so, sn): (usize, usize) = g.iter().fold((0, 0), |a, op| (a.0 + op.old_range().len(), a.1 + op.new_range().len()));
+                        if lo - fo != so || ln - fn_ != sn {
+                            return Some(format!("{}: group {:?}: extent from first/last op is old {}..{} new {}..{} but the group consumes {} old and {} new items (clause: hunk extents from the first and last op are true coordinates)", ctx, g, fo, lo, fn_, ln, so, sn));
+                        }
                     }
                 }
             }
@@ -1485,7 +1575,37 @@ fn check_normal_form(ops: &[DiffOp], new: &[u32]) -> Result<(), String> {
     Ok(())
 }
 
+/// token sequences for text diffs above the 100-token switch of the builder (as line texts)
+fn large_token_shapes() -> Vec<(&'static str, Vec<u32>, Vec<u32>)> {
+    let mut v: Vec<(&'static str, Vec<u32>, Vec<u32>)> = big_shapes(130).into_iter().chain(c02_large_shapes()).collect();
+    // changes next to a long common head / tail: `.. a b <tail>` vs `.. b a b b <tail>`
+    let head: Vec<u32> = (0..60u32).map(|i| 100 + i).collect();
+    let tail: Vec<u32> = (0..60u32).map(|i| if i == 0 { 2 } else { 300 + i }).collect();
+    let mk = |mid: &[u32]| -> Vec<u32> { head.iter().copied().chain(mid.iter().copied()).chain(tail.iter().copied()).collect() };
+    v.push(("insertion in front of a long common tail that starts with the inserted item", mk(&[1, 2]), mk(&[2, 1, 2, 2])));
+    v.push(("deletion in front of a long common tail", mk(&[1, 2, 2, 7]), mk(&[1, 7])));
+    v.push(("different lengths with a long common suffix", mk(&[1, 2, 3, 4, 5]), mk(&[9])));
+    v
+}
+fn tokens_to_lines(t: &[u32]) -> String {
+    t.iter().map(|x| format!("w{}\n", x)).collect()
+}
+
 fn c09(cases: &mut u64) -> Option<String> {
+    // "TextDiff::ops" is an observation point of C09 too: line diffs above the 100-token switch
+    for (name, o, n) in large_token_shapes() {
+        let (ot, nt) = (tokens_to_lines(&o), tokens_to_lines(&n));
+        for &alg in &ALGS {
+            *cases += 1;
+            let ops = match guard(|| TextDiff::configure().algorithm(alg).diff_lines(&ot[..], &nt[..]).ops().to_vec()) {
+                Ok(x) => x,
+                Err(p) => return Some(format!("C09 alg={:?} large line diff '{}': {}", alg, name, p)),
+            };
+            if let Err(e) = check_normal_form(&ops, &n) {
+                return Some(format!("C09 alg={:?} TextDiff::diff_lines '{}' ({} / {} lines) ops={:?}: {}", alg, name, o.len(), n.len(), ops, e));
+            }
+        }
+    }
     let all = seqs(3, bd(6));
     for o in &all {
         for n in &all {
@@ -1950,14 +2070,19 @@ fn c13_op(op: &DiffOp, old: &[u32], new: &[u32]) -> Result<(), String> {
     if got != want {
         return Err(format!("{}: iter_changes yields (tag, old_index, new_index, value) {:?}, expected {:?}", ctx, got, want));
     }
-    // slice-wise: the same items as one slice (two for Replace)
-    let mut want_slices: Vec<(ChangeTag, Vec<u32>)> = Vec::new();
-    for f in &want {
-        let tag = f.0;
-        if want_slices.last().map(|l| l.0) == Some(tag) {
-            want_slices.last_mut().unwrap().1.push(f.3);
-        } else {
-            want_slices.push((tag, vec![f.3]));
+    // slice-wise: the same items as ONE slice (two for Replace: the deleted items, then the inserted items)
+    let (_, orr, nrr) = op.as_tag_tuple();
+    let want_slices: Vec<(ChangeTag, Vec<u32>)> = match op {
+        DiffOp::Equal { .. } => vec![(ChangeTag::Equal, old[orr.clone()].to_vec())],
+        DiffOp::Delete { .. } => vec![(ChangeTag::Delete, old[orr.clone()].to_vec())],
+        DiffOp::Insert { .. } => vec![(ChangeTag::Insert, new[nrr.clone()].to_vec())],
+        DiffOp::Replace { .. } => vec![(ChangeTag::Delete, old[orr.clone()].to_vec()), (ChangeTag::Insert, new[nrr.clone()].to_vec())],
+    };
+    {
+        let flat: Vec<(ChangeTag, u32)> = want_slices.iter().flat_map(|(t, v)| v.iter().map(move |x| (*t, *x))).collect();
+        let items: Vec<(ChangeTag, u32)> = want.iter().map(|f| (f.0, f.3)).collect();
+        if flat != items {
+            return Err(format!("{}: internal: slice twin {:?} and item twin {:?} disagree", ctx, flat, items));
         }
     }
     let got_slices: Vec<(ChangeTag, Vec<u32>)> = guard(|| op.iter_slices(old, new).map(|(t, s): (ChangeTag, &[u32])| (t, s.to_vec())).collect())
@@ -1992,12 +2117,14 @@ fn c13(cases: &mut u64) -> Option<String> {
     let (so, sn): (Vec<u32>, Vec<u32>) = ((10..15).collect(), (20..25).collect());
     for oi in 0..4 {
         for nj in 0..4 {
-            for ol in 1..=2 {
-                for nl in 1..=2 {
+            for ol in 0..=2 {
+                for nl in 0..=2 {
+                    // lengths include 0 ("arbitrary in-bounds offsets and lengths")
                     let ops = [
                         DiffOp::Replace { old_index: oi, old_len: ol, new_index: nj, new_len: nl },
                         DiffOp::Delete { old_index: oi, old_len: ol, new_index: nj },
                         DiffOp::Insert { old_index: oi, new_index: nj, new_len: nl },
+                        DiffOp::Equal { old_index: oi, new_index: nj, len: ol.min(nl) },
                     ];
                     for op in &ops {
                         *cases += 1;
@@ -2007,6 +2134,27 @@ fn c13(cases: &mut u64) -> Option<String> {
                     }
                 }
             }
+        }
+    }
+    // re-applying a SEQUENCE of ops to one capturing hook reproduces the sequence (adjacent ops of the same kind stay apart)
+    for seq in [
+        vec![DiffOp::Delete { old_index: 0, old_len: 1, new_index: 0 }, DiffOp::Delete { old_index: 1, old_len: 2, new_index: 0 }],
+        vec![DiffOp::Insert { old_index: 0, new_index: 0, new_len: 1 }, DiffOp::Insert { old_index: 0, new_index: 1, new_len: 2 }],
+        vec![DiffOp::Equal { old_index: 0, new_index: 0, len: 1 }, DiffOp::Equal { old_index: 1, new_index: 1, len: 1 }],
+        vec![DiffOp::Delete { old_index: 0, old_len: 1, new_index: 0 }, DiffOp::Insert { old_index: 1, new_index: 0, new_len: 1 }, DiffOp::Delete { old_index: 1, old_len: 1, new_index: 1 }],
+        vec![DiffOp::Replace { old_index: 0, old_len: 1, new_index: 0, new_len: 1 }, DiffOp::Replace { old_index: 1, old_len: 1, new_index: 1, new_len: 1 }],
+    ] {
+        *cases += 1;
+        let back = guard(|| {
+            let mut c = Capture::new();
+            for op in &seq {
+                op.apply_to_hook(&mut c).unwrap();
+            }
+            c.into_ops()
+        });
+        match back {
+            Err(p) => return Some(format!("C13 apply_to_hook of the sequence {:?} on one Capture: {}", seq, p)),
+            Ok(b) => if b != seq { return Some(format!("C13 applying the ops {:?} one after the other to one Capture gives {:?} (clause: re-applying an op to a capturing hook reproduces the op)", seq, b)); },
         }
     }
     let all = seqs(3, bd(5));
@@ -2020,6 +2168,11 @@ fn c13(cases: &mut u64) -> Option<String> {
                     Ok(x) => x,
                     Err(p) => return Some(format!("C13 alg={:?} old={:?} new={:?}: {}", alg, o, n, p)),
                 };
+                // the whole captured list re-applied to one capturing hook reproduces the list
+                match guard(|| { let mut c = Capture::new(); for op in &ops { op.apply_to_hook(&mut c).unwrap(); } c.into_ops() }) {
+                    Err(p) => return Some(format!("C13 alg={:?} old={:?} new={:?}: re-applying {:?}: {}", alg, o, n, ops, p)),
+                    Ok(b) => if b != ops { return Some(format!("C13 alg={:?} old={:?} new={:?}: re-applying the captured ops {:?} to a Capture gives {:?}", alg, o, n, ops, b)); },
+                }
                 for op in &ops {
                     if let Err(w) = c13_op(op, o, n) {
                         return Some(format!("{} (op list {:?} from alg {:?})", w, ops, alg));
@@ -2178,7 +2331,55 @@ fn c05_check(old: &str, new: &str, hunks: &[(String, String)], radius: usize) ->
     Ok(())
 }
 
+fn c05_render(cfg_alg: Algorithm, expired: bool, o: &str, n: &str, radius: usize) -> Result<(Vec<(String, String)>, Vec<DiffOp>, String), String> {
+    guard(|| {
+        let mut cfg = TextDiff::configure();
+        cfg.algorithm(cfg_alg);
+        if expired {
+            cfg.deadline(expired_deadline());
+        }
+        let d = cfg.diff_lines(o, n);
+        let hunks: Vec<(String, String)> = d.unified_diff().context_radius(radius).iter_hunks().map(|h| (h.header().to_string(), h.to_string())).collect();
+        let whole = d.unified_diff().context_radius(radius).header("a", "b").to_string();
+        (hunks, d.ops().to_vec(), whole)
+    })
+}
+
 fn c05(cases: &mut u64) -> Option<String> {
+    // line diffs above the 100-token switch of the builder, and every small text with an expired deadline
+    for (name, o, n) in large_token_shapes() {
+        let (ot, nt) = (tokens_to_lines(&o), tokens_to_lines(&n));
+        for &alg in &ALGS {
+            for radius in [0usize, 3] {
+                for expired in [false, true] {
+                    *cases += 1;
+                    match c05_render(alg, expired, &ot, &nt, radius) {
+                        Err(p) => return Some(format!("C05 alg={:?} large line diff '{}' radius={}: {}", alg, name, radius, p)),
+                        Ok((hunks, _ops, _)) => if let Err(e) = c05_check(&ot, &nt, &hunks, radius) {
+                            let headers: Vec<&String> = hunks.iter().map(|h| &h.0).collect();
+                            return Some(format!("C05 alg={:?} diff_lines of '{}' ({} / {} lines) radius={} deadline={}: hunk headers {:?}: {}", alg, name, o.len(), n.len(), radius, if expired { "expired" } else { "None" }, headers, e));
+                        },
+                    }
+                }
+            }
+        }
+    }
+    for o in &line_texts() {
+        for n in &line_texts() {
+            for &alg in &ALGS {
+                for radius in [0usize, 2] {
+                    *cases += 1;
+                    match c05_render(alg, true, o, n, radius) {
+                        Err(p) => return Some(format!("C05 alg={:?} old={:?} new={:?} radius={} deadline expired: {}", alg, o, n, radius, p)),
+                        Ok((hunks, ops, _)) => if let Err(e) = c05_check(o, n, &hunks, radius) {
+                            let headers: Vec<&String> = hunks.iter().map(|h| &h.0).collect();
+                            return Some(format!("C05 alg={:?} deadline expired: diff_lines(old={:?}, new={:?}).unified_diff().context_radius({}): hunk headers {:?} (ops {:?}): {}", alg, o, n, radius, headers, ops, e));
+                        },
+                    }
+                }
+            }
+        }
+    }
     let texts = line_texts();
     for o in &texts {
         for n in &texts {
@@ -2377,13 +2578,14 @@ fn c04(cases: &mut u64) -> Option<String> {
             }
         }
     }
-    // more distinct tokens than a 16-bit id can number (the builder maps tokens to integer ids above 100 tokens)
-    {
-        let ot: String = (0..70_000u32).map(|i| format!("L{}\n", i)).collect();
-        let nt: String = (0..70_000u32).map(|i| if i == 35_000 { "changed\nadded\n".to_string() } else { format!("L{}\n", i) }).collect();
+    // more distinct tokens than a 16-bit id can number (the builder maps tokens to integer ids above 100 tokens):
+    // once with more than 65535 tokens per side, once with fewer per side but more than 65535 distinct tokens in total
+    for huge in 0..2 {
+        let ot: String = if huge == 1 { (0..65_000u32).map(|i| format!("L{}\n", i)).collect() } else { (0..70_000u32).map(|i| format!("L{}\n", i)).collect() };
+        let nt: String = if huge == 1 { (0..65_000u32).map(|i| if i < 600 { format!("R{}\n", i) } else { format!("L{}\n", i) }).collect() } else { (0..70_000u32).map(|i| if i == 35_000 { "changed\nadded\n".to_string() } else { format!("L{}\n", i) }).collect() };
         for &alg in &ALGS {
             *cases += 1;
-            let ctx = format!("C04 line diff of 70000 distinct lines (line 35000 replaced by two lines) alg={:?}", alg);
+            let ctx = format!("C04 line diff of {} alg={:?}", if huge == 1 { "65000 distinct lines with the first 600 rewritten" } else { "70000 distinct lines (line 35000 replaced by two lines)" }, alg);
             let r = guard(|| {
                 let mut cfg = TextDiff::configure();
                 cfg.algorithm(alg);
@@ -2415,16 +2617,17 @@ fn main() {
         "C05bytes" => (c05_bytes(&mut cases), "[u8] line texts (feature bytes) of 0..=3 lines over {a, b, 0xFF, a 0xFE b}, terminated or not, radius 0/3, header on/off: UnifiedDiff::to_writer keeps every change line's bytes, equals Display on UTF-8, Display is its lossy decoding otherwise"),
         "C06" => (c06(&mut cases), "str: all strings of length 0..=4 over 15 scalars (ASCII, CR, LF, TAB, VT, FF, NUL, NBSP, U+2028, U+3000, U+0085, combining mark, 2- and 4-byte chars) + 4 longer texts; [u8]: all byte strings of length 0..=4 over 13 bytes incl. invalid UTF-8; lines / lines_and_newlines / words / chars; str vs [u8] on the same bytes"),
         "C11clock" => (c07_clock(&mut cases, true), "virtual clock (cfg similar_verif, so the K1 hook is on too): alphabet {0,1,2} len 0..=5 x every deadline check k, plus 6 shapes of 120 items x sampled k: the ops of capture_diff_deadline carry exact indices on both sides (C11) under every expiry schedule"),
+        "C11text" => (c11_text(&mut cases), "crate built with --cfg similar_verif (K1 repair hook on): TextDiff line diffs of all token sequences over {0,1,2} len 0..=4 and of 21 shapes of 101..260 tokens (integer-mapping path): exact indices on both sides, group extents from first/last op"),
         "C08" => (c08(&mut cases), "alphabet {0,1,2}, len 0..=4, 6 hook stacks x 2 hook kinds x every failing call index x deadline {none, expired}"),
         "C02" => (c02(&mut cases), "alphabet {0,1,2}, len 0..=5, deadline none/expired, slices + sub-ranges + TextDiff chars; 15 text diffs of 101..260 tokens through the integer-mapping path"),
         "C03" => (c03(&mut cases), "alphabet {0,1,2} len 0..=6 and alphabet {0,1} len 0..=8, Myers + LCS, raw + captured; 4 pairs of 400..900 items with edit distances in the hundreds"),
-        "C09" => (c09(&mut cases), "alphabet {0,1,2}, len 0..=6, deadline none/expired"),
+        "C09" => (c09(&mut cases), "alphabet {0,1,2}, len 0..=6, deadline none/expired; TextDiff line diffs of 101..260 lines"),
         "C10" => (c10(&mut cases), "alphabet {0,1}, len 0..=3, all valid scripts x all carried indices x 3 adapter stacks"),
         "C11" => (c11(&mut cases), "alphabet {0,1,2}, len 0..=5, slices + embedded sub-ranges"),
         "C12" => (c12(&mut cases), "alternating exact op lists up to 8 ops, equal lens {1,2,3,5,8}, 6 change shapes, n 0..=3; TextDiff::grouped_ops / Capture::into_grouped_ops == group_diff_ops on char diffs (alphabet {0,1,2}, len 0..=4, n 0..=2) and on 2^23 equal lines + 1 inserted line"),
         "C13" => (c13(&mut cases), "synthetic ops + captured ops for alphabet {0,1,2} len 0..=5 + TextDiff chars"),
-        "C05" => (c05(&mut cases), "lines {a,b,c}, 0..=4 lines, optional missing final newline, radius 0..=2"),
-        "C04" | "C17" => (c04(&mut cases), "texts over {a,b,space,newline} len 0..=4, lines/words/chars, iter_all_changes (deadline none / expired) + remapper + utils helpers; 15 line diffs of 101..260 lines and one of 70000 distinct lines (reconstruction through the integer-mapping path)"),
+        "C05" => (c05(&mut cases), "lines {a,b,c}, 0..=4 lines, optional missing final newline, radius 0..=2, deadline none / expired; 21 line diffs of 101..260 lines"),
+        "C04" | "C17" => (c04(&mut cases), "texts over {a,b,space,newline} len 0..=4, lines/words/chars, iter_all_changes (deadline none / expired) + remapper + utils helpers; 15 line diffs of 101..260 lines, one of 70000 distinct lines, one of 65000 lines with 600 rewritten (reconstruction through the integer-mapping path)"),
         _ => {
             eprintln!("usage: replay <C01|C02|C03|C04|C05|C07|C08|C09|C10|C11|C12|C13|C17>");
             std::process::exit(2);
